@@ -8,7 +8,7 @@
         <outcome> ::= ok <val> | fuel | stuck <why>
         <event>  ::= <fn>(<val>,<val>…)
         <val>    ::= <int> | true | false | u | s<hex> | none | some:<int> | [<int>;…]
-                   | acc:<int> | rej:<int> | rec[..] | enm<k>[..]
+                   | acc:<int> | rej:<int> | rec[..] | enm<k>[..] | T<int>   (a value of the host type `Tok`)
     c08 mir <hex sexp>   →  <fn 0> || <fn 1> || … (main last), each  ok <tmp_idx> | <block 0> | <block 1> …   or   outside
         the structured lowering model (`RotoV.LowerS.lowerBlock` of main's body, then `return`)
         laid out as a CFG: instructions `a <var> = <value>`, `r <var>`, `j <block>`,
@@ -21,7 +21,7 @@
     fn   ::= (fn (x…) blk)
     blk  ::= (blk item…)    item ::= (let x e) | (do e) | (last e)
     e    ::= (int n) | (bool 0|1) | (unit) | (var x) | (host f e…) | (call f e…)
-           | (bin op e e) | (and e e) | (or e e) | (not e) | (neg e)
+           | (bin op e e) | (eqh 0|1 e e) | (and e e) | (or e e) | (not e) | (neg e)          (eqh: ==/!= on the host type)
            | (ite e blk blk) | (if1 e blk) | (match opt|enm e arm…) | (while e blk) | (for x e blk)
            | (block blk) | (set x e) | (cset op x e) | (setf x i e) | (csetf op x i e) | (ret e) | (accept e) | (reject e)
            | (try e) | (some e) | (none) | (ctor k e…) | (record (p…) e…) | (field e i)
@@ -116,6 +116,9 @@ partial def toExpr : Sexp → Option Expr
     let l ← toExpr l
     let r ← toExpr r
     pure (.bin op l r)
+  | .list [.atom "eqh", .atom ne, l, r] => do
+    let ne ← if ne = "1" then some true else if ne = "0" then some false else none
+    pure (.eqH ne (← toExpr l) (← toExpr r))
   | .list [.atom "and", l, r] => do pure (.and (← toExpr l) (← toExpr r))
   | .list [.atom "or", l, r] => do pure (.or (← toExpr l) (← toExpr r))
   | .list [.atom "not", e] => do pure (.not (← toExpr e))
@@ -209,6 +212,7 @@ def showVal : Val → String
   | .list xs => showInts xs
   | .verdict true v => "acc:" ++ toString v
   | .verdict false v => "rej:" ++ toString v
+  | .tok v => "T" ++ toString v
 
 def showEvent (e : Event) : String :=
   toString e.fn ++ "(" ++ ",".intercalate (e.args.map showVal) ++ ")"
@@ -270,7 +274,7 @@ def opName : BinOp → String
   | .lt => "Lt" | .le => "Le" | .gt => "Gt" | .ge => "Ge"
 
 def hostName (f : Nat) : String :=
-  (["emit", "emit_b", "emit_u", "emit_s", "emit_o", "mix", "emit3", "emit_l"][f]?).getD s!"host{f}"
+  (["emit", "emit_b", "emit_u", "emit_s", "emit_o", "mix", "emit3", "emit_l", "tok", "to_string", "peek"][f]?).getD s!"host{f}"
 
 def showLit : Val → String
   | .int v => s!"int:{v}"
@@ -285,6 +289,7 @@ def showValue : Value → String
   | .clone x => "clone " ++ showVar x
   | .move x => "move " ++ showVar x
   | .binop l op r => s!"binop {showVar l} {opName op} {showVar r}"
+  | .eqHost l ne r => s!"binop {showVar l} {if ne then "Ne" else "Eq"} {showVar r}"
   | .not x => "not " ++ showVar x
   | .neg x => "neg " ++ showVar x
   | .callRt f args => s!"callrt {hostName f} " ++ " ".intercalate (args.map showVar)
